@@ -28,6 +28,19 @@ statement, its hypothesis is the decidable class `ctx-survives-cleanup` of the c
 `Effect::watch` called its handler outside the effect's owner (F-C08-2, repaired in /repo): the
 model follows the repaired code, `C08_watch_handler_owned` is the full statement, and
 `C08_watch_handler_unowned` keeps the failing history as a witness against the old definition.
+An `ImmediateEffect` disposed while it is running runs again (F-C08-3, class
+`imm-reruns-after-dispose`, `C08_imm_disposed_midrun_reruns`; hooks/fix-c08-3.patch stops it:
+`C08_imm_disposed_midrun_stops`): `EffDead` — the hypothesis of `C08_disposed_effect_never_runs` —
+therefore asks that no run of the effect is in progress, which holds between op lines.
+
+*Re-run kinds and scoped tasks.*  One theorem per kind of owner-scoped re-run
+(`C08_memo_rerun_releases`, `C08_effect_rerun_releases` / `C08_render_rerun_releases`,
+`C08_imm_rerun_releases` — including a run that starts while another run of the same effect is in
+progress —, `C08_with_cleanup_releases`).  Effects, immediate effects and scoped tasks are rows of one
+table, so `C08_disposed_effect_never_runs` covers them all; `C08_scope_cleanup_cancels` instantiates it
+for what a cleanup closure decides over (a `new_scoped` effect, a task spawned with cancellation),
+`C08_scoped_hook_registered` places that closure in the generation that spawns the task, and
+`C08_held_owner_survives` is the reference count of owners captured by `ScopedFuture`.
 -/
 namespace Leptos.Owner
 
